@@ -317,6 +317,53 @@ def s_from_residual(ip, st, fr, name, args, c, site):
     raise X.Unanalysable('from_residual on %r' % (v,))
 
 
+@S('<std::option::Option<T> as std::ops::Try>::branch')
+def s_try_branch_opt(ip, st, fr, name, args, c, site):
+    v = args[0]
+    CF = 'std::ops::ControlFlow'
+    if isinstance(v, X.Adt):
+        if v.variant == 'Some':
+            return one(X.Adt(CF, 'Continue', 0, [v.xs[0]], True))
+        return one(X.Adt(CF, 'Break', 1, [none()], True))
+    if isinstance(v, X.Sym):
+        d = ip.discr(st, v)
+        return [([T.mk_cmp('eq', d, I(1))], lambda ip, s2, f2, a2: X.Adt(CF, 'Continue', 0, [opt_payload(ip, s2, a2[0], 'Some', 1, 0)], True)),
+                ([T.mk_cmp('eq', d, I(0))], lambda ip, s2, f2, a2: X.Adt(CF, 'Break', 1, [none()], True))]
+    raise X.Unanalysable('Try::branch on %r' % (v,))
+
+
+@S('<std::option::Option<T> as std::ops::FromResidual<std::option::Option<std::convert::Infallible>>>::from_residual')
+def s_from_residual_opt(ip, st, fr, name, args, c, site):
+    return one(none())
+
+
+ORD = 'std::cmp::Ordering'
+
+
+@S('re:^std::cmp::impls::<impl std::cmp::Ord for (u8|u16|u32|u64|usize|i32|i64|isize|char)>::cmp$',
+   're:^std::cmp::impls::<impl std::cmp::PartialOrd for (u8|u16|u32|u64|usize|i32|i64|isize|char)>::partial_cmp$')
+def s_int_cmp(ip, st, fr, name, args, c, site):
+    a = deref_all(ip, st, args[0])
+    b = deref_all(ip, st, args[1])
+    wrap = (lambda v: some(v)) if name.endswith('partial_cmp') else (lambda v: v)
+    return [([T.mk_cmp('lt', a, b)], lambda *x: wrap(X.Adt(ORD, 'Less', 0, [], True))),
+            ([T.mk_cmp('eq', a, b)], lambda *x: wrap(X.Adt(ORD, 'Equal', 1, [], True))),
+            ([T.mk_cmp('lt', b, a)], lambda *x: wrap(X.Adt(ORD, 'Greater', 2, [], True)))]
+
+
+@S('std::collections::HashMap::<K, V, S, A>::contains_key')
+def s_contains_key(ip, st, fr, name, args, c, site):
+    # contains_key(k) == get(k).is_some(): expressed through the same `get` term so both spellings read alike
+    m = deref_all(ip, st, args[0])
+    k = args[1]
+    gname = 'std::collections::HashMap::<K, V, S, A>::get'
+    t = ('call', gname, (ip.to_term(st, m), ip.to_term(st, k)))
+    st.calls.append((gname, t[2]))
+    vty = c['generics'][1] if len(c.get('generics', [])) > 1 else '?'
+    v = ip.sym_value(st, t, 'std::option::Option<&%s>' % vty)
+    return one(T.mk_cmp('eq', ip.discr(st, v), I(1)))
+
+
 # ------------------------------------------------------------------ integers / chars
 
 @S('std::cmp::min', 'std::cmp::max')
